@@ -229,7 +229,13 @@ func (ai *AI) step(fn *ssa.Function, in ssa.Instruction, s *aiState) bool {
 		switch x.Op {
 		case token.MUL:
 			ai.checkDeref(fn, x.X, x.Pos(), s)
-			s.vals[x] = ai.load(x.X, x.Type(), s)
+			lv := ai.load(x.X, x.Type(), s)
+			if fa, ok := x.X.(*ssa.FieldAddr); ok && !lv.Taint {
+				if b := ai.val(fa.X, s); b != nil && b.Taint {
+					lv.Taint = true // a field of a request-derived message
+				}
+			}
+			s.vals[x] = lv
 		case token.NOT:
 			a := ai.val(x.X, s).clone()
 			switch a.B {
@@ -720,6 +726,12 @@ func (ai *AI) call(fn *ssa.Function, call *ssa.Call, s *aiState) {
 	if com.IsInvoke() {
 		// interface method call: escaping pointers lose their facts
 		ai.escape(com.Args, s)
+		if com.Method.Name() == "Recv" {
+			// a message received on a stream is a (non-nil on success) request
+			if tup, ok := call.Type().(*types.Tuple); ok && tup.Len() == 2 {
+				res = &AV{K: 'S', Taint: true, F: map[string]*AV{"0": {K: 'p', Nil: tNo, Taint: true}, "1": topOf(tup.At(1).Type(), false)}}
+			}
+		}
 		return
 	}
 	cal := com.StaticCallee()
